@@ -366,6 +366,14 @@ fn c16_oracle(c: &C16Case, run: &ServerRun) -> Vec<Violation> {
     let sv = serde_json::to_value(c).unwrap();
     let mut v = vec![];
     common_oracle(&c.spec, run, &sv, &mut v, false);
+    // a re-submission that was issued before the party's own schedule request *is* its schedule
+    // request (with the compatible program): nothing to judge then
+    let resubmission_first = run.calls.iter().any(|d| {
+        d.what == "dup-schedule" && run.calls.iter().any(|s| s.what == "schedule" && s.party == d.party && s.comp == d.comp && s.issued_seq >= d.issued_seq)
+    });
+    if resubmission_first {
+        return v;
+    }
     for &p in &c.must_err {
         for call in run.calls.iter().filter(|x| x.what == "schedule" && x.party == p) {
             if call.ok != Some(false) {
@@ -447,8 +455,14 @@ fn c16_gen(seed: u64, k: u64) -> C16Case {
             (format!("ill-typed: party {p}"), vec![p])
         }
     };
+    let leader_template = ps.template;
     let mut spec = base_spec(&mut rng, n, vec![ps], vec![1; n], true);
     spec.http = k % 4 == 3;
+    // in half of the program mismatches the follower's client re-submits its schedule request, this
+    // time with the leader's program: refused as a duplicate, and it must not make the pair compatible
+    if what.starts_with("program-mismatch") && k % 2 == 0 {
+        spec.injections.push(Injection { after_events: rng.random_range(1..6), action: Action::DupSchedule { party: f, comp: 1, template: Some(leader_template) }, burst: false, burst_before: false });
+    }
     C16Case { spec, what, must_err }
 }
 
@@ -460,7 +474,7 @@ impl Check for C16 {
         "exploration"
     }
     fn rule(&self) -> String {
-        "each evaluation is one simulated execution (n in {2,3}) in which exactly one party's policy is incompatible: a different program at one follower (another template, or a near miss: the same characters with the line break after a `//` comment moved so that the function differs, or a difference in the last characters only), a different leader named by a follower that still regards itself as a follower (n=3), or an ill-typed program at any party; the explorer chooses the arrival order (validate before or after that follower's schedule) and all other RPC orders. Oracle: the schedule calls of that follower and of the leader (ill-typed: of that party) end with an error, no destination is sent a successful result, zero MPC messages are exchanged, no task panics. distinct = (mismatch kind, configuration, coordination order) hash".into()
+        "each evaluation is one simulated execution (n in {2,3}) in which exactly one party's policy is incompatible: a different program at one follower (another template, or a near miss: the same characters with the line break after a `//` comment moved so that the function differs, or a difference in the last characters only), a different leader named by a follower that still regards itself as a follower (n=3), or an ill-typed program at any party; in half of the program mismatches the follower's client re-submits its schedule request with the leader's program (refused as a duplicate; it must not make the pair compatible); the explorer chooses the arrival order (validate before or after that follower's schedule) and all other RPC orders. Oracle: the schedule calls of that follower and of the leader (ill-typed: of that party) end with an error, no destination is sent a successful result, zero MPC messages are exchanged, no task panics. distinct = (mismatch kind, configuration, coordination order) hash".into()
     }
     fn assumptions(&self) -> Vec<String> {
         vec!["two self-declared leaders are out of scope (they wait for each other until the client's RPC timeout)".into(), "a compatible third party may keep waiting for a run request; that is not flagged here".into()]
@@ -585,7 +599,7 @@ fn c14_cases(base: &ServerSpec, base_run: &ServerRun, rng: &mut ChaCha8Rng) -> V
         // duplicate schedule at every later point while the machine exists
         let stop_at = base_run.machines_stopped.iter().find(|m| m.0 == p && m.1 == 1).map(|m| m.2 as usize).unwrap_or(total + 1);
         for k in (sched_at + 1)..stop_at.min(total + 1) {
-            mk(format!("duplicate-schedule: party {p} ({}) after event {k}", if p == leader { "leader" } else { "follower" }), true, k, Action::DupSchedule { party: p, comp: 1 }, &mut out);
+            mk(format!("duplicate-schedule: party {p} ({}) after event {k}", if p == leader { "leader" } else { "follower" }), true, k, Action::DupSchedule { party: p, comp: 1, template: None }, &mut out);
         }
         // MPC message naming an unknown sender / arriving before scheduling, at every point
         for k in 0..=total {
@@ -1114,7 +1128,7 @@ fn c17_gen(seed: u64, k: u64) -> ServerSpec {
             let ps = &spec.policies[rng.random_range(0..spec.policies.len())];
             spec.injections.push(Injection {
                 after_events: rng.random_range(1..30),
-                action: Action::DupSchedule { party: if rng.random_bool(0.7) { ps.leader } else { rng.random_range(0..n) }, comp: ps.comp },
+                action: Action::DupSchedule { party: if rng.random_bool(0.7) { ps.leader } else { rng.random_range(0..n) }, comp: ps.comp, template: None },
                 burst: false,
                 burst_before: false,
             });
